@@ -1000,5 +1000,17 @@ func (vx *Vaxis) render()
   loop 8 invariant C01_pos: !reposition && trow() == row + 1 && tcol() == col + skip + 2
   loop 7 invariant col: 0 <= col && col < vx.screenNext.cols && 0 <= row && row < vx.screenNext.rows && skip >= 0
   loop 8 invariant col: 0 <= col && col < vx.screenNext.cols && 0 <= row && row < vx.screenNext.rows && skip >= 0
+  -- graphics placements on a full refresh (C20): every placement of the previous frame is deleted and every placement
+  -- of this frame is transmitted again, kept or not
+  ensures C20_refresh_del: vx.refresh ==> loglen("deleted") == old(loglen("deleted")) + old(len(vx.graphicsLast))
+  ensures C20_refresh_put: vx.refresh ==> loglen("placed") == old(loglen("placed")) + len(vx.graphicsNext)
+  loop 1 invariant C20_del: vx.refresh == old(vx.refresh) && len(vx.graphicsLast) == old(len(vx.graphicsLast)) && rangeindex < len(vx.graphicsLast)
+       && (vx.refresh ==> loglen("deleted") == old(loglen("deleted")) + rangeindex + 1) && loglen("placed") == old(loglen("placed"))
+  loop 2 invariant C20_del: vx.refresh == old(vx.refresh) && !vx.refresh
+  loop 3 invariant C20_put: vx.refresh == old(vx.refresh) && rangeindex < len(vx.graphicsNext) && len(vx.graphicsNext) == old(len(vx.graphicsNext))
+  loop 3 invariant C20_put1: vx.refresh ==> len(vx.graphicsLast) == 0
+  loop 3 invariant C20_put2: vx.refresh ==> loglen("placed") == old(loglen("placed")) + rangeindex + 1
+  loop 3 invariant C20_put3: vx.refresh ==> loglen("deleted") == old(loglen("deleted")) + old(len(vx.graphicsLast))
+  loop 4 invariant C20_put: vx.refresh == old(vx.refresh) && (vx.refresh ==> len(vx.graphicsLast) == 0)
   ensures C01_linkclosed: pen().Hyperlink == ""
 @*/
